@@ -1,5 +1,6 @@
-from checks import scan, text, hexre, cond, shortcuts, externals, arena
+from checks import scan, text, hexre, cond, shortcuts, externals, arena, company
 CHECKS = {
+    "C05": company.c05,
     "C08": arena.c08,
     "C17": arena.c17,
     "C19": arena.c19,
